@@ -4,10 +4,18 @@
     ircmodel run <ops-file>     print the model transcript of every sequence in the file,
                                 in the format of `irc-harness run`
     ircmodel fn  <calls-file>   pure-function mode, format of `irc-harness fn`
+    ircmodel inv <transcript>   `invCheck` of the state of every `op` block of a transcript
+                                (the implementation's or the model's): one line per block
+    ircmodel stepfrom <ops-file> <transcript>
+                                the transcript in which EVERY operation k is the model's `step`
+                                from the state that <transcript> (the implementation's run of
+                                <ops-file>) shows after operation k-1 (`Irc.Load`)
 -/
 import Irc
 import Irc.Timer
 import Irc.Config
+import Irc.Load
+import Std.Data.HashMap
 
 open Irc
 
@@ -309,11 +317,155 @@ def timerFile (path : String) : IO Unit := do
       inSeq := false
     else if inSeq then ops := ops.push line
 
+/-! ### transcripts as input (`inv`, `stepfrom`): streamed line by line -/
+
+/-- a transcript file being read, with one line of push-back. -/
+structure TReader where
+  h : IO.FS.Handle
+  back : IO.Ref (Option String)
+
+def TReader.open (path : String) : IO TReader := do
+  return { h := ← IO.FS.Handle.mk path .read, back := ← IO.mkRef none }
+
+/-- next line without its line end; `none` at the end of the file. -/
+def TReader.line (r : TReader) : IO (Option String) := do
+  match ← r.back.get with
+  | some l => r.back.set none; return some l
+  | none =>
+    let l ← r.h.getLine
+    if l.isEmpty then return none
+    let l := if l.endsWith "\n" then (l.dropEnd 1).toString else l
+    let l := if l.endsWith "\r" then (l.dropEnd 1).toString else l
+    return some l
+
+/-- what `inv` / `stepfrom` need of a transcript: the sequence headers and, per `op` block, its
+    number and its `st` records (tokens as they stand, `Irc.Load` unescapes). -/
+inductive TItem
+  | seq (name : String)
+  | op (k : Nat) (recs : List (List Str))
+  | eof
+
+/-- next item; `cur` = the block being collected.  A block that is cut off (end of file or a
+    `seq` line before its `endop`) is dropped. -/
+partial def TReader.item (r : TReader) (cur : Option (Nat × Array (List Str)) := none) : IO TItem := do
+  match ← r.line with
+  | none => return .eof
+  | some l =>
+    if l.startsWith "st " then
+      match cur with
+      | some (k, acc) => r.item (some (k, acc.push (words l)))
+      | none => r.item none
+    else if l.startsWith "out " then r.item cur
+    else if l == "endop" then
+      match cur with
+      | some (k, acc) => return .op k acc.toList
+      | none => r.item none
+    else if l.startsWith "op " then
+      r.item (some (natOf ((l.toList.drop 3).takeWhile (· != ' ')), #[]))
+    else if l.startsWith "seq " then
+      match cur with
+      | some _ => r.back.set (some l); r.item none
+      | none => return .seq (l.drop 4).toString
+    else r.item cur
+
+/-- `ircmodel inv <transcript>`. -/
+def invFile (path : String) : IO Unit := do
+  let r ← TReader.open path
+  let mut name := ""
+  repeat
+    match ← r.item with
+    | .eof => break
+    | .seq n => name := n
+    | .op k recs =>
+      let bad := invCheck (loadWorld {} recs)
+      if bad.isEmpty then IO.println s!"inv {name} {k} ok"
+      else IO.println s!"inv {name} {k} FAIL {String.intercalate " " bad}"
+
+/-- the sequences of an ops file: name, configuration, operations (as `runFile` reads them). -/
+def parseOpsFile (content : String) : Array (String × Cfg × Array String) := Id.run do
+  let mut res : Array (String × Cfg × Array String) := #[]
+  let mut name := ""
+  let mut cfg : Cfg := {}
+  let mut ops : Array String := #[]
+  let mut inSeq := false
+  for raw in content.splitOn "\n" do
+    let line := if raw.endsWith "\r" then (raw.dropEnd 1).toString else raw
+    if line.isEmpty || line.startsWith "#" then continue
+    if line.startsWith "seq " then
+      cfg := {}; ops := #[]; inSeq := false
+      name := (line.drop 4).toString
+    else if line.startsWith "cfg " then
+      cfg := applyCfg cfg ((words line).drop 1)
+    else if line == "begin" then inSeq := true
+    else if line == "end" then
+      res := res.push (name, cfg, ops)
+      inSeq := false
+    else if inSeq then ops := ops.push line
+  return res
+
+/-- `ircmodel stepfrom <ops-file> <transcript>`.  The transcript's sequences are expected in the
+    order of the ops file (a subsequence of it: missing ones are allowed, foreign ones are skipped).
+    Not printed in the dump, hence not loadable, but read by `STATS m`: the command counters; they are
+    threaded through the sequence from the model's own steps. -/
+def stepFromFile (opsPath trPath : String) : IO Unit := do
+  let seqs := parseOpsFile (← IO.FS.readFile opsPath)
+  let mut index : Std.HashMap String Nat := {}
+  for i in [0:seqs.size] do
+    index := index.insert seqs[i]!.1 i
+  let r ← TReader.open trPath
+  -- the transcript sequence whose header was read last and whose blocks have not been used
+  let mut header : Option String := none
+  let mut atEof := false
+  for i in [0:seqs.size] do
+    let (name, cfg, ops) := seqs[i]!
+    IO.println s!"seq {name}"
+    let w0 := World.init cfg
+    printBlock 0 "init" { w := w0 }
+    -- position the transcript on this sequence, unless it is not there
+    repeat
+      if atEof then break
+      match header with
+      | some hn =>
+        if hn == name then break
+        -- a later sequence of the ops file: this one is missing from the transcript
+        if (index.get? hn).any (· > i) then break
+        header := none
+      | none =>
+        match ← r.item with
+        | .eof => atEof := true
+        | .seq n => header := some n
+        | .op .. => pure ()
+    if header == some name then
+      header := none
+      let mut counts := w0.cmdCounts
+      let mut k := 0
+      for op in ops do
+        k := k + 1
+        -- the implementation's state after operation k-1
+        match ← r.item with
+        | .eof => atEof := true; break
+        | .seq n => header := some n; break
+        | .op j recs =>
+          if j + 1 != k then break
+          match parseEvent (words op) with
+          | some ev =>
+            let w := { loadWorld cfg recs with cmdCounts := counts }
+            let so := step cfg w ev
+            printBlock k op so
+            counts := so.w.cmdCounts
+          | none =>
+            IO.println s!"op {k} {op}"
+            IO.println "ev unknown-op"
+            IO.println "endop"
+    IO.println "endseq"
+
 def main (args : List String) : IO UInt32 := do
   match args with
   | ["run", path] => runFile path; return 0
   | ["timer", path] => timerFile path; return 0
   | ["fn", path] => fnFile path; return 0
+  | ["inv", path] => invFile path; return 0
+  | ["stepfrom", opsPath, trPath] => stepFromFile opsPath trPath; return 0
   | _ =>
     IO.eprintln "usage: ircmodel run <ops-file>"
     return 2
